@@ -11,7 +11,7 @@ use tokio::sync::RwLock;
 use crate::core::consensus::block::Block;
 use crate::core::consensus::blockchain::Blockchain;
 use crate::core::consensus::burnfee::BurnFee;
-use crate::core::consensus::golden_ticket::GoldenTicket;
+use crate::core::consensus::golden_ticket::{GoldenTicket, GOLDEN_TICKET_SIZE};
 use crate::core::consensus::transaction::{Transaction, TransactionType};
 use crate::core::consensus::wallet::Wallet;
 use crate::core::defs::SaitoUTXOSetKey;
@@ -80,6 +80,10 @@ impl Mempool {
         }
     }
     pub async fn add_golden_ticket(&mut self, golden_ticket: Transaction) {
+        if golden_ticket.data.len() != GOLDEN_TICKET_SIZE {
+            warn!("golden ticket transaction with a payload that is not a golden ticket. not adding");
+            return;
+        }
         let gt = GoldenTicket::deserialize_from_net(&golden_ticket.data);
         debug!(
             "adding golden ticket : {:?} target : {:?} public_key : {:?}",
@@ -394,8 +398,11 @@ impl Mempool {
     pub fn delete_transactions(&mut self, transactions: &Vec<Transaction>) {
         for transaction in transactions {
             if let TransactionType::GoldenTicket = transaction.transaction_type {
-                let gt = GoldenTicket::deserialize_from_net(&transaction.data);
-                self.golden_tickets.remove(&gt.target);
+                // (a malformed ticket never made it into the collection)
+                if transaction.data.len() == GOLDEN_TICKET_SIZE {
+                    let gt = GoldenTicket::deserialize_from_net(&transaction.data);
+                    self.golden_tickets.remove(&gt.target);
+                }
             } else {
                 self.transactions.remove(&transaction.signature);
             }
